@@ -749,6 +749,8 @@ pub struct Model<'p> {
     pub block_runs: HashMap<usize, u32>,
     /// loops (while / for-in) currently being executed around the current statement
     pub loop_nest: usize,
+    /// calls deeper than this end the case as 'step bound exceeded'
+    pub max_call_depth: usize,
     pub exit_on_error: bool,
     /// C10: failures observed: id -> (message is known?, message)
     pub failures: Vec<u32>,
@@ -797,6 +799,7 @@ impl<'p> Model<'p> {
             classes: HashSet::new(),
             block_runs: HashMap::new(),
             loop_nest: 0,
+            max_call_depth: 40,
             exit_on_error: false,
             failures: vec![],
             last_error: None,
@@ -908,7 +911,7 @@ impl<'p> Model<'p> {
         self.call_stack.push(f);
         self.depth += 1;
         self.max_depth_seen = self.max_depth_seen.max(self.depth);
-        if self.depth > 40 {
+        if self.depth > self.max_call_depth {
             return Err(Stop::Steps);
         }
         let body = &def.body;
